@@ -23,6 +23,7 @@ import (
 	"path"
 	"slices"
 	"strings"
+	"sync/atomic"
 	"time"
 
 	"github.com/pkg/errors"
@@ -958,6 +959,9 @@ func (qs *queueSupplier) OpenDB(groupSchema *commonv1.Group) (resourceSchema.DB,
 	// is always the Hot stage by the same isHot rule used in supplier.OpenDB.
 	opt := qs.option
 	opt.isHot = true
+	// The replica count is refreshed by wqueue.UpdateOptions on a group update.
+	replicas := new(atomic.Uint32)
+	replicas.Store(ro.Replicas)
 	opts := wqueue.Opts[*tsTable, option]{
 		Group:           group,
 		ShardNum:        shardNum,
@@ -971,8 +975,9 @@ func (qs *queueSupplier) OpenDB(groupSchema *commonv1.Group) (resourceSchema.DB,
 		) (*tsTable, error) {
 			return newWriteQueue(fileSystem, root, position, l, option, metrics, group, shardID, getNodes, qs.handoffCtrl)
 		},
+		Replicas: replicas,
 		GetNodes: func(shardID common.ShardID) []string {
-			copies := ro.Replicas + 1
+			copies := replicas.Load() + 1
 			nodes, err := qs.traceDataNodeRegistry.LocateAll(group, uint32(shardID), int(copies))
 			if err != nil {
 				qs.l.Error().Err(err).Str("group", group).Uint32("shard", uint32(shardID)).Msg("failed to locate nodes")
